@@ -127,12 +127,18 @@ def gen_numbers(rng, quick):
         add(b, 'range-end')
     for _ in range(10 if quick else 150):
         add(rng.getrandbits(52), 'subnormal')
-    # whole range, random bit patterns
+    # whole range: random bit patterns, and a random mantissa in (a random part of) every decade — every table entry of the
+    # implementation's digit generation is indexed by the decimal exponent
     for _ in range(60 if quick else 1500):
         b = rng.getrandbits(64)
         if (b >> 52) & 0x7ff == 0x7ff:
             continue
         out.append((b, 'random-bits'))
+    for k in range(-323, 309):
+        if quick and rng.random() > 0.3:
+            continue
+        for _ in range(1 if quick else 3):
+            add(rn(Fraction(rng.randint(10 ** 16, 10 ** 17 - 1), 10 ** 16) * Fraction(10) ** k), 'decade')
     # coordinates as applications have them: short decimals, long decimals, moderate magnitudes
     for _ in range(500 if quick else 12000):
         r = rng.random()
@@ -552,12 +558,14 @@ def shrink(tree, fails, budget=120):
 
 
 # ---------------------------------------------------------------------------------------------- running
-def run_parallel(ctx, argv, lines, timeout=900, env=None, jobs=None):
+def run_parallel(ctx, argv, lines, timeout=900, env=None, jobs=None, pairs=0):
+    """run line-in/line-out over chunks in parallel; the first 2*pairs lines are kept in (N, D) pairs"""
     jobs = jobs or max(1, min(NPROC, 16))
     n = len(lines)
     if n == 0:
         return []
-    size = max(1, (n + jobs - 1) // jobs)
+    size = max(2, (n + jobs - 1) // jobs)
+    size += size % 2
     chunks = [lines[i:i + size] for i in range(0, n, size)]
     with ThreadPoolExecutor(max_workers=jobs) as ex:
         res = list(ex.map(lambda ch: ctx.run_lines(argv, ch, timeout=timeout, env=env), chunks))
@@ -708,12 +716,36 @@ def run(ctx):
 
     all_lines = nlines + slines + glines
     ctx.log('cases: %d numbers, %d numerals, %d geometry lines' % (len(nlines), len(slines), len(glines)))
-    model = run_parallel(ctx, [drv], all_lines, timeout=1500) if drv else None
+    # the model additionally reports, for every double, the digits its search returns and whether they are in the rounding interval / in range
+    # (the hypothesis of shortest_roundtrip_partial); the D line follows its N line so that the digits are computed once
+    model_in = []
+    for l in nlines:
+        model_in += [l, 'D ' + l.split()[1]]
+    model_in += slines + glines
+    model_raw = run_parallel(ctx, [drv], model_in, timeout=1500, pairs=len(nlines)) if drv else None
     impl = run_parallel(ctx, [hexe], all_lines, timeout=600)
     ctx.log('model and implementation ran')
-    if model is not None and len(model) != len(all_lines):
-        ctx.broken.append(dict(kind='correspondence', name='model driver output', detail='%d lines for %d cases' % (len(model), len(all_lines))))
-        model = None
+    model = None
+    if model_raw is not None and len(model_raw) == len(model_in):
+        model = model_raw[0:2 * len(nlines):2] + model_raw[2 * len(nlines):]
+        dl = model_raw[1:2 * len(nlines):2]
+        n_fin = n_ok = 0
+        for l, o in zip(nlines, dl):
+            w = o.split()
+            if w[:1] == ['special']:
+                continue
+            n_fin += 1
+            try:
+                k, g = int(w[0]), int(w[1])
+                if w[2] == 'true' and 1 <= k < 10 ** 17 and -400 <= g <= 380:
+                    n_ok += 1
+                else:
+                    ctx.broken.append(dict(kind='proof', name='hypothesis of shortest_roundtrip_partial', detail='digits of %s: %s' % (l.split()[1], o)))
+            except Exception:
+                ctx.broken.append(dict(kind='correspondence', name='model D line', detail=l + ' -> ' + o[:200]))
+        ctx.notes['digits_in_range'] = '%d/%d finite non-zero doubles: 1 <= k < 10^17, -400 <= g <= 380, k*10^g in the rounding interval' % (n_ok, n_fin)
+    elif model_raw is not None:
+        ctx.broken.append(dict(kind='correspondence', name='model driver output', detail='%d lines for %d cases' % (len(model_raw), len(model_in))))
 
     disagreements = []
 
